@@ -38,6 +38,20 @@ def is_source(c):
     return next((s for s in SOURCES if s in c), None)
 
 
+def closure_captures(ix, parent, clo):
+    return {}
+
+
+def combinator_receiver(ix, parent, clo):
+    """The receiver of the Option combinator (`is_some_and`, `map_or`, ...) that `clo` is passed to in `parent`."""
+    psym = mir.Sym(parent, ix)
+    for bi, t in parent.calls():
+        args = [psym.operand(a) for a in t.get("args", [])]
+        if any(a[0] == "closure" and a[1] == clo.key for a in args) and args and "Option" in (t.get("callee") or ""):
+            return args[0]
+    return None
+
+
 def rule_sources(ctx):
     ix = ctx.ix
     reach = reach_set(ix)
@@ -49,7 +63,9 @@ def rule_sources(ctx):
         for bi, t in b.calls():
             c = strip_generics(t.get("callee") or "")
             if is_source(c):
-                found.setdefault((k, c), []).append(bi)
+                # a closure is part of the function it is written in (`limit.is_some_and(|l| start.elapsed() >= l)`)
+                owner = b.parent if b.kind == "closure" and b.parent else k
+                found.setdefault((owner, c), []).append(bi)
         # pointer -> integer casts make results address-dependent
         for bi, i, s in b.stmts():
             rv = s["rv"]
@@ -62,10 +78,12 @@ def rule_sources(ctx):
     ctx.floor("nondeterminism sources on the search / bench call graph", len(found), 4)
     ctx.check(len(reach) >= 120, "call-graph-size", "%d crate functions reachable from Search::search and bench::bench were scanned" % len(reach), bad_what="only %d functions reachable: the call graph is incomplete" % len(reach))
     # time-tainted comparisons in limits_exceeded are against limits fields only
-    b = ctx.body(C.LIMITS_EXCEEDED)
-    sym = ctx.sym(b)
+    b0 = ctx.body(C.LIMITS_EXCEEDED)
     n = 0
-    for bi, i, s in b.stmts():
+    for b in [b0] + ix.closures_of(C.LIMITS_EXCEEDED):
+      sym = ctx.sym(b)
+      caps = closure_captures(ix, b0, b) if b is not b0 else {}
+      for bi, i, s in b.stmts():
         rv = s["rv"]
         if rv.get("k") == "binop" and rv["op"] in ("Lt", "Le", "Gt", "Ge", "Eq", "Ne"):
             ea, eb = sym.operand(rv["a"]), sym.operand(rv["b"])
@@ -73,10 +91,14 @@ def rule_sources(ctx):
             if ta or tb:
                 n += 1
                 other = eb if ta else ea
+                # inside `limit.is_some_and(|l| elapsed >= l)` the other side is the closure's parameter: the payload of the
+                # Option the combinator was called on
+                if b is not b0 and other[0] == "arg":
+                    other = combinator_receiver(ix, b0, b) or other
                 ok = mentions_field(other, "limits") and not ("Instant::elapsed" in expr_str(other))
                 ctx.check(ok, c15.dedup(ctx.__dict__.setdefault("_seen16", {}), "%s:clock-compared-with-limit" % C.LIMITS_EXCEEDED), "elapsed time is compared with `%s` (None / MAX in a fixed-depth search)" % expr_str(other)[:80], b.where(line=s.get("line")),
                           bad_what="elapsed time is compared with `%s`, which is not a SearchLimits field: the decision depends on the clock even without time limits" % expr_str(other)[:80])
-    ctx.floor("clock comparisons in limits_exceeded", n, 3)
+    ctx.floor("clock comparisons in limits_exceeded", n, 1)
     # the time handed to log_uci_info cannot influence state: log_uci_info has an empty write set
     from .c02 import eff
     e = eff(ix)
